@@ -8,7 +8,7 @@ IDS = ["Alpha", "Beta", "Gamma", "Delta", "Eps", "Zeta", "Eta", "Theta", "Iota",
 
 
 # variant identifiers that also name things generated code mentions (associated types, prelude items)
-TIDS = ["None", "Some", "Ok", "Err", "Error", "Iterator", "Item", "Output", "Default", "Option", "Result", "Discriminant"]
+TIDS = ["None", "Some", "type", "Err", "Error", "Iterator", "fn", "Output", "Default", "Option", "match", "Discriminant"]
 
 
 def ids_for(did):
@@ -160,7 +160,7 @@ def table_module(E, depth, steps):
     dis = [i + 1 for i, v in enumerate(E["variants"]) if v["dis"]]
     src = SG.HEADER + D.print_enum(E, ["EnumTable"], std_derives=("Debug", "Clone", "Copy", "PartialEq")) + "\n" + D.helper_impl(E) + "\n"
     src += "fn key(i: usize) -> %s { match i { %s _ => unreachable!() } }\n" % (
-        n, " ".join("%d => %s::%s," % (i + 1, n, uncp(v["id"])) for i, v in enumerate(E["variants"])))
+        n, " ".join("%d => %s::%s," % (i + 1, n, D.vid(v)) for i, v in enumerate(E["variants"])))
     src += "fn pos(i: usize) -> usize { match i { %s _ => unreachable!() } }\n" % " ".join("%d => %d," % (k, p) for p, k in enumerate(en))
     proj = "vec![%s]" % ", ".join("t[key(%d)]" % k for k in en)
     src += ("impl TableOps for %sTable<u8> {\n"
